@@ -55,7 +55,9 @@ class CHECK(Check):
         # log10 matter), up to 17 significant digits, the top of the range (round() overflows)
         for x, dd in [(1.04e-322, 1), (1.0000000000000001e23, 15), (1.7976931348623157e308, 2), (1.7976931348623157e308, 16),
                       (5e-324, 0), (5e-324, 3), (2.2250738585072014e-308, 0), (2.2250738585072014e-308, 14), (9.999999999999993e-308, 14),
-                      (9.5, 0), (0.95, 1), (1e23, 0), (1e22, 2)]:
+                      (9.5, 0), (0.95, 1), (1e23, 0), (1e22, 2),
+                      # just below a power of ten, where a floating-point log10 rounds up to the integer (defect 11)
+                      (9.999999999999374e-301, 13), (9.999999999999917e-301, 14), (9.999999999999479e-273, 13), (9.99999999999995e299, 13)]:
             yield {"fields": [{"k": "float", "size": 30, "start": 0, "dd": dd, "fmt": "E", "sep": "."}], "values": [["float", fl.f2b(x)]], "setters": None}
         for _ in range(1500 if tier == "quick" else 60000):
             dd = rng.choice([0, 1, 2, 3, 5, 8, 12, 13, 14, 14, 15, 16, rng.randint(0, 16)])
@@ -166,11 +168,6 @@ class CHECK(Check):
 
     def in_domain(self, case, mobs):
         return mobs["fits"] or self.overflow_on_rounding(case)
-
-    def comparable(self, case):
-        # FloatField's E branch calls the C library's log10; where its floor is not the exact one the model (exact floor)
-        # does not describe the code. The oracle below still judges these cases.
-        return all(fl.libm_log10_exact(x) for _, x in self.sci_floats(case))
 
     def compare(self, case, iobs, mobs):
         if "raised" in iobs:
